@@ -69,3 +69,12 @@ func codeStrings(code []ref.Instr) []string {
 	}
 	return out
 }
+
+// clip shortens long sources in failure messages (the replay file holds the whole case).
+func clip(s string) string {
+	lines := strings.Split(s, "\n")
+	if len(lines) > 60 {
+		lines = append(lines[:60], fmt.Sprintf("... (%d more lines)", len(lines)-60))
+	}
+	return strings.Join(lines, "\n")
+}
